@@ -262,8 +262,30 @@ func LoadProgram() (*Program, error) {
 		for _, cl := range c.Requires {
 			emit(cl, append(append([]string{}, base...), ghosts...), "bool", false)
 		}
+		// function-scope locals may be mentioned in postconditions (they are bound at each return;
+		// a local not yet declared at an early return is arbitrary there)
+		var endLocals []string
+		for _, v := range scopeVars(info, fi.Decl, fi.Decl.Body.Rbrace, p1.Types.Scope()) {
+			if fscope := info.Scopes[fi.Decl.Type]; fscope == nil || v.Parent() != fscope {
+				continue
+			}
+			if seen[v.Name()] {
+				continue
+			}
+			endLocals = append(endLocals, paramDecl(v, is))
+		}
 		for _, cl := range c.Ensures {
-			emit(cl, append(append(append([]string{}, base...), ghosts...), results...), "bool", false)
+			ps := append(append(append([]string{}, base...), ghosts...), results...)
+			rs := map[string]bool{}
+			for _, r := range ps {
+				rs[strings.Fields(r)[0]] = true
+			}
+			for _, l := range endLocals {
+				if !rs[strings.Fields(l)[0]] {
+					ps = append(ps, l)
+				}
+			}
+			emit(cl, ps, "bool", false)
 		}
 		for _, gv := range c.GhostVars {
 			emit(gv.Init, base, gv.Type, false)
